@@ -263,6 +263,8 @@ def check_placeholders(ctx: Ctx) -> None:
     flow = prog.flow(call)
     ext = repo.func(f"{TW}:_extract_atomic_constructs")
     res = repo.func(f"{TW}:_restore_atomic_constructs")
+    if not any(prog.resolve_call(call, c) == [res] for _n, c in flow.all_calls()):
+        raise AnalysisError(f"{res.name} is not called from the word splitter: the restore step cannot be located")
     for r in flow.cfg.returns():
         org = deep_origins(prog, call, r.ast.value, r, stop={res.qual})
         ok = org == frozenset({("call", res.qual)})
